@@ -999,15 +999,18 @@ func hrHas(list []string, s string) bool {
 
 // a timer of the code may already have fired although the behaviour has it still running: the machine was too slow to
 // realise this behaviour; what is observed then says nothing about the property (the run is repeated)
-func (w *hrWorld) slipNow() bool {
+func (w *hrWorld) slipNow() bool { return w.slipAt(time.Now()) }
+
+// t: when the anomaly was first seen. A 2 s timer of the code cannot have fired earlier than 2 s after its start.
+func (w *hrWorld) slipAt(t time.Time) bool {
 	for _, x := range []*hrExpect{w.prevX, w.curX} {
 		if x == nil {
 			continue
 		}
-		if x.LState == "hot" && !w.lHotSince.IsZero() && time.Since(w.lHotSince) > 1400*time.Millisecond {
+		if x.LState == "hot" && !w.lHotSince.IsZero() && t.Sub(w.lHotSince) > 1900*time.Millisecond {
 			return true
 		}
-		if x.MState == "hot" && !w.mHotSince.IsZero() && time.Since(w.mHotSince) > 1400*time.Millisecond {
+		if x.MState == "hot" && !w.mHotSince.IsZero() && t.Sub(w.mHotSince) > 1900*time.Millisecond {
 			return true
 		}
 	}
@@ -1161,12 +1164,21 @@ func hrRunScenario(sc *hrScenario, job *hrJob) (out hrOutcome) {
 	prev := initX
 	w.raw = sc.Raw
 	w.prevX = nil
+	firstSeen := time.Time{}
 	drifted := func(at int, msg string) {
 		if out.drift == "" {
-			out.drift = fmt.Sprintf("%s step %d %s: %s", sc.Name, at, hrLabel(sc.Steps[at]), msg)
-			if w.slipNow() {
+			if firstSeen.IsZero() {
+				firstSeen = time.Now()
+			}
+			var ls []string
+			for _, q := range sc.Steps {
+				ls = append(ls, hrLabel(q))
+			}
+			out.drift = fmt.Sprintf("%s step %d %s: %s [%s]", sc.Name, at, hrLabel(sc.Steps[at]), msg, strings.Join(ls, " "))
+			if w.slipAt(firstSeen) {
 				out.slip = true
 			}
+			firstSeen = time.Time{}
 		}
 	}
 	lateAckClass := false
@@ -1515,8 +1527,12 @@ func hrRunScenario(sc *hrScenario, job *hrJob) (out hrOutcome) {
 		// compare at settled points: the next step is one the harness drives (or the behaviour ends)
 		if x != nil && x.Quiet {
 			var d string
+			firstSeen = time.Time{}
 			ok := w.waitFor(1500*time.Millisecond, func() bool {
 				d = w.diff(x, w.snapshot(len(x.Sess)))
+				if d != "" && firstSeen.IsZero() {
+					firstSeen = time.Now()
+				}
 				return d == ""
 			})
 			out.compares++
@@ -1578,7 +1594,11 @@ func hrRunScenario(sc *hrScenario, job *hrJob) (out hrOutcome) {
 			if sc.Prop == "C17" {
 				w.viol(sc, &out, "extra-session", detail)
 			} else {
-				out.drift = sc.Name + " end: " + detail
+				var ls []string
+				for _, q := range sc.Steps {
+					ls = append(ls, hrLabel(q))
+				}
+				out.drift = sc.Name + " end: " + detail + " [" + strings.Join(ls, " ") + "]"
 			}
 		}
 	}
